@@ -1097,6 +1097,14 @@ impl Trivia {
                     let before = before.filter(|&(end, _)| {
                         outer.is_none() || !source[end..offset].contains(['}', ']', ')'])
                     });
+                    // Likewise a node after the comment, when the bracket around the comment closes
+                    // between them — the comment leaves its brackets only if it has no neighbour
+                    // inside.
+                    let after = after.filter(|anchor| {
+                        outer.is_none()
+                            || before.is_none()
+                            || !closes_bracket(&source[offset..anchor.start])
+                    });
                     let at_line_end = same_line
                         && before.is_some_and(|(end, _)| !source[end..offset].contains('\n'));
                     match (at_line_end, before, after, outer) {
@@ -1202,6 +1210,23 @@ impl Trivia {
             self.leading.contains_key(&span.offset) || self.trailing.contains_key(&span.offset)
         })
     }
+}
+
+/// Whether `text` closes a bracket that it did not open itself (comments aside).
+fn closes_bracket(text: &str) -> bool {
+    let mut depth = 0usize;
+    for line in text.lines() {
+        let code = line.find("//").map_or(line, |at| &line[..at]);
+        for character in code.chars() {
+            match character {
+                '{' | '[' | '(' => depth += 1,
+                '}' | ']' | ')' if depth == 0 => return true,
+                '}' | ']' | ')' => depth -= 1,
+                _ => {}
+            }
+        }
+    }
+    false
 }
 
 /// Render a run of leading trivia: each comment on its own line, each blank as an extra hard line.
